@@ -4,7 +4,6 @@ package c06
 import (
 	"bytes"
 	"compress/zlib"
-	"encoding/binary"
 	"fmt"
 	"io"
 	"reflect"
@@ -181,40 +180,9 @@ func firstDiff(a, b []byte) int {
 	return len(b)
 }
 
-// payload: valid ICC profile of about n bytes, or arbitrary bytes
-func payload(rt *rapid.T, n int) []byte {
-	if n >= 400 && rapid.Bool().Draw(rt, "validprofile") {
-		desc := build.TextDesc(fmt.Sprintf("profile-%d", n))
-		if rapid.Bool().Draw(rt, "v4") {
-			desc = build.Mluc([]build.MlucRec{{Lang: [2]byte{'d', 'e'}, Country: [2]byte{'D', 'E'}, Text: "Profil"}, {Lang: [2]byte{'e', 'n'}, Country: [2]byte{'U', 'S'}, Text: fmt.Sprintf("Profile %d", n)}}, nil, nil, 0)
-		}
-		over := 128 + 4 + 24 + len(desc)
-		if n-over >= 8 {
-			p := build.SimpleProfile(desc, n-over)
-			// header fields a profile consumer might normalise: flags, rendering intent, profile ID, creator
-			if rapid.Bool().Draw(rt, "hdrfields") {
-				copy(p[44:48], gen.Payload(rt, "flags", 4))
-				copy(p[64:68], gen.Payload(rt, "intent", 4))
-				copy(p[80:84], gen.Payload(rt, "creator", 4))
-				if rapid.Bool().Draw(rt, "id") {
-					copy(p[84:100], gen.Payload(rt, "id", 16))
-				}
-			}
-			// the embedded bytes are returned as they are, whatever the profile's own size field says: sometimes
-			// the field is smaller or larger than the payload, sometimes extra bytes follow the profile
-			switch rapid.IntRange(0, 5).Draw(rt, "sizefield") {
-			case 0:
-				binary.BigEndian.PutUint32(p, uint32(rapid.IntRange(128, len(p)-1).Draw(rt, "declared")))
-			case 1:
-				binary.BigEndian.PutUint32(p, uint32(len(p)+rapid.IntRange(1, 1000).Draw(rt, "declaredmore")))
-			case 2:
-				p = append(p, gen.Payload(rt, "trailer", rapid.IntRange(1, 64).Draw(rt, "trailerlen"))...)
-			}
-			return p
-		}
-	}
-	return gen.Payload(rt, "icc", n)
-}
+// payload: valid ICC profile of about n bytes (possibly with a disagreeing size field, trailing bytes or zero
+// padding), or arbitrary bytes
+func payload(rt *rapid.T, n int) []byte { return gen.ProfilePayload(rt, "icc", n) }
 
 // ---- PNG
 
